@@ -72,6 +72,9 @@ func NewWithOptions(opts *Options) *MemFS {
 		vfs.volumes[volumeName] = vfs.rootNode
 	}
 
+	// start in the root directory: with an empty current directory relative paths can't be resolved.
+	_ = vfs.SetCurDir(volumeName + string(vfs.PathSeparator()))
+
 	if len(opts.SystemDirs) == 0 {
 		opts.SystemDirs = avfs.SystemDirs(vfs, volumeName)
 	}
